@@ -59,6 +59,7 @@ class Group:
     extra_instrument: List[str] = field(default_factory=list)
     no_dfcc: bool = False                 # plain harness (spec-level lemma), no contract instrumentation
     replay: Optional[str] = None          # name of native replay recipe
+    need_canary: bool = True              # harness must end with VP_CANARY() and it must be reachable
 
 
 @dataclass
@@ -80,6 +81,7 @@ class Result:
     trace: Optional[list] = None
     workdir: str = ""
     loop_obligations: int = 0
+    canaries: int = 0
 
 
 AUX_PATTERNS = [
@@ -279,6 +281,8 @@ def run_group(g: Group, prop: str, keep_trace=True) -> Result:
             raise Infra("cbmc produced no result (rc=%s): %s" % (rc, alltxt[-2500:]))
         n = 0
         ok = 0
+        canaries = 0
+        vacuous = []
         for r in results:
             desc = r.get("description", "")
             st = r.get("status")
@@ -286,6 +290,13 @@ def run_group(g: Group, prop: str, keep_trace=True) -> Result:
             m = TAG_RE.match(desc)
             if g.tags is not None and m and not (set(m.group(1).split("/")) & set(g.tags)):
                 continue   # obligation belongs to another property
+            if desc.startswith("VP-CANARY"):
+                # reachability guard: this assertion(false) must FAIL, i.e. the harness end is reachable under
+                # the preconditions / rely (a contradictory requires or assume would make it "succeed")
+                canaries += 1
+                if st == "SUCCESS":
+                    vacuous.append(desc)
+                continue
             entry = {"name": r.get("property"), "description": desc,
                      "file": loc.get("file", ""), "line": loc.get("line", ""), "function": loc.get("function", "")}
             n += 1
@@ -345,6 +356,11 @@ def run_group(g: Group, prop: str, keep_trace=True) -> Result:
                         (r.get("description") == "assertion" and r.get("sourceLocation", {}).get("function", "").endswith("_wrapped_for_contract_checking")))
             if steps < want:
                 raise Infra(f"only {steps} loop_invariant_step obligations for {want} loop contracts (contract silently dropped)")
+        res.canaries = canaries
+        if vacuous:
+            raise Infra("vacuity guard: harness end unreachable (contradictory precondition/assumption): " + "; ".join(vacuous))
+        if g.need_canary and canaries == 0:
+            raise Infra("vacuity guard: no reachability canary in this harness")
         if res.failed:
             res.status = "violation"
         elif res.aux_failed:
